@@ -1,7 +1,7 @@
 //! Fixed-capacity, array-backed association-list models of std::collections::{HashMap, HashSet}.
 //! Insertion-ordered, linear search, no heap. Exceeding CAP is a hard error (reported, never silently cut).
 use std::borrow::Borrow;
-pub const CAP: usize = 4; // overlay.py rewrites this line for the *8 profiles
+pub const CAP: usize = 4;
 fn overflow() -> ! { panic!("kcoll: capacity bound exceeded") }
 
 pub struct HashMap<K, V> { pub items: [Option<(K, V)>; CAP], pub n: usize }
